@@ -1,9 +1,9 @@
 CONSTANTS
- Procs = {"p1", "p2", "p3"}
+ Procs = {"p1", "p2", "p3", "p4", "p5"}
  Queues = {"q1", "q2", "q3"}
  MaxMax = 2
- MultiLens = {3}
- Confs <- AllConfs
+ MultiLens = {2, 3}
+ Confs <- FiveConfs
 INIT Init
 NEXT Next
 INVARIANTS Bound NoOrphan QueuedWait FailedClean QuiescentNoWaiters NoIdleSlotWhileWaiting
